@@ -21,7 +21,7 @@ STRINGS = ['"s"', "'s'", '"a b"', '""', '"a\\"b"', "'a\\'b'", '"}"', '"{"', '";"
            '"\\\\"', '"ä"', '" "', '"a,b"', '"+"']
 URLS = ['url(a)', 'url(a.png)', 'url("a b")', "url('x')", 'url(a\\ b)', 'url()', 'url("a)b")', 'url( x )', 'URL(y)',
         'url(http://e.org/a?b=c&d)']
-HASHES = ['#fff', '#aabbcc', '#AABBCC', '#abcdef', '#aabbcd', '#112233', '#a1b2c3', '#AaBbCc', '#00000000', '#12']
+HASHES = ['#aabcbb', '#abbacc', '#aabbc0', '#fff', '#aabbcc', '#AABBCC', '#abcdef', '#aabbcd', '#112233', '#a1b2c3', '#AaBbCc', '#00000000', '#12']
 
 
 def number(r):
